@@ -28,7 +28,8 @@ MANIFEST = dict(
     technique='exhaustive enumeration of all random outcomes of the real protocols with exact (Fraction) output distributions; statistical distance oracle',
     text='For sgn (full, LT, EQ), lsb, trunc, _mod, to_bits, trailing_zeros, conversions, is_zero_public, reciprocal at l<=3, k in {3,4(,5)}: the exact '
          'distribution of the values opened inside the protocol is computed for every secret input by enumerating every mask/bit/blinding outcome; '
-         'inputs with equal outputs must have views within statistical distance 4*2^-k.',
+         'inputs with equal outputs must have views within statistical distance 4*2^-k. Multi-party premise: on real (3,1), (4,1) runs of the corpus '
+         'every PRSS evaluation of every party uses a fresh common input (masks, random bits and zero sharings are independent).',
     ref='DESIGN 5/C18, 7', note='trusted: randomness seam owns every draw; uniform draws; observer model (see assumptions)')
 
 MAX_DRAWS = 24
